@@ -93,13 +93,13 @@ CONTEXT = [
   F('Context::new', trust=True, spec=""),
   F('Context::set', trust=True, spec="        ensures final(self)@ == old(self)@.insert(name@, cv_view(v)),"),
   F('Context::set_func', props=['C08'], spec="        ensures final(self)@ == old(self)@.insert(name@, CV::Func(func)),  // @C08 context.set_func"),
-  F('Context::set_variable', props=['C06', 'C09'], spec="        ensures final(self)@ == old(self)@.insert(name@, CV::Var(vv(value))),  // @C06 context.set_variable"),
+  F('Context::set_variable', props=['C06', 'C09'], spec="        ensures final(self)@ == old(self)@.insert(name@, CV::Var(vv(value))),  // @C06,C09 context.set_variable"),
   F('Context::get', props=['C06', 'C07', 'C08', 'C09'],
-    spec="        ensures self@.dom().contains(name@) == (r is Some), r matches Some(c) ==> cv_view(c) == self@[name@],  // @C06,C07,C08 context.get"),
+    spec="        ensures self@.dom().contains(name@) == (r is Some), r matches Some(c) ==> cv_view(c) == self@[name@],  // @C06,C07,C08,C09 context.get"),
   F('Context::get_func', props=['C08'], spec="        ensures r == spec_get_func(self@, name@),  // @C08 context.get_func"),
   F('Context::get_variable', props=['C06'],
     spec="        ensures self@.dom().contains(name@) && self@[name@] is Var ==> r is Some && vv(r->Some_0) == self@[name@]->Var_0,\n            !(self@.dom().contains(name@) && self@[name@] is Var) ==> r is None,  // @C06 context.get_variable"),
-  F('Context::value', props=['C03', 'C06', 'C07', 'C08', 'C09'], spec="        ensures agree_v(r, spec_value(self@, name@)),  // @C03,C06,C07,C08 context.value"),
+  F('Context::value', props=['C03', 'C06', 'C07', 'C08', 'C09'], spec="        ensures agree_v(r, spec_value(self@, name@)),  // @C03,C06,C07,C08,C09 context.value"),
 ]
 EXEC_KEYS = set(s.key for s in EXEC) | {'ExprAST::get_precidence'}
 UNIT = Unit('ev', [
